@@ -171,6 +171,12 @@ QUICK_SYNC = {   # sync queries per property in the quick tier (10-90 s each wit
     "s_get_absent": {"C01", "C14"},
     "s_insert_update0": {"C01", "C05", "C06"},
     "s_insert_new": {"C01", "C05"},
+    "s_insert_update1_no_expiry": {"C01", "C07", "C16", "C03"},
+    "l_purge_fresh_front_keeps_watermark": {"C07", "C01"},
+    "l_upsert_admission_n1_hot": {"C13", "C12", "C04", "C10"},
+    "l_upsert_admission_n1_cold": {"C13", "C03"},
+    "l_upsert_admission_n2_hot": {"C12", "C13", "C11"},
+    "l_upsert_admission_n2_victim_hot": {"C13"},
     "s_iterfilter0_before_watermark_no_expiry": {"C01", "C16", "C07"},
     "s_get0_ttl_deadline": {"C05", "C01"},
     "s_contains0_ttl_deadline": {"C05", "C15"},
@@ -187,7 +193,7 @@ QUICK_SYNC = {   # sync queries per property in the quick tier (10-90 s each wit
     "s_invalidate_all_again": {"C07"},
     "s_iterfilter0_ttl_deadline": {"C16", "C05"},
     "s_iterfilter1_live": {"C16", "C15"},
-    "l_upsert_update_n1": {"C03", "C04", "C10"},
+    "l_upsert_update_n1": {"C03", "C04", "C10", "C11"},
     "l_upsert_update_n2_lru_ttl": {"C06", "C10", "C12", "C05"},
     "l_upsert_admit_fits_unbounded": {"C03", "C10", "C04"},
     "l_upsert_admit_fits_cap": {"C03", "C04", "C10"},
@@ -232,7 +238,7 @@ def _sync():
         elif fn == "s_invalidate_all":
             props |= {"C07", "C01"}; prim |= {"C07"}
         elif fn == "l_upsert_update":
-            props |= {"C10", "C03", "C04", "C06", "C05", "C12"}; prim |= {"C10", "C06", "C12", "C03", "C04", "C05"}
+            props |= {"C10", "C03", "C04", "C06", "C05", "C12", "C11", "C01"}; prim |= {"C10", "C06", "C12", "C03", "C04", "C05"}
         elif fn == "l_upsert_admit_fits":
             props |= {"C10", "C03", "C04", "C12", "C05"}; prim |= {"C10", "C03", "C04"}
         elif fn == "l_upsert_admission":
@@ -241,6 +247,8 @@ def _sync():
             props |= {"C13", "C12", "C10", "C04", "C03", "C11"}
         elif fn == "l_burst":
             props |= {"C10", "C03", "C01", "C07", "C04", "C11", "C09"}
+        elif fn == "l_purge_fresh_front":
+            props |= {"C07", "C01", "C03", "C05"}
         elif fn == "l_evict_lru_exact":
             props |= {"C12", "C04", "C10", "C11"}; prim |= {"C12", "C04"}
         elif fn == "l_purge_one":
@@ -288,6 +296,9 @@ for _nm in ("hit", "expired", "invalidated", "miss"):
         "n=1 resident, concrete time class; guard counter of the container model; housekeeping decision stubbed by a checking twin")
 add("sync_base_cache.rs", "s_eviction_counters_never_overflow", {"C10", "C08"}, "quick", 2, "EvictionCounters saturating arithmetic", "all u64 totals, u32 weights")
 add("sync_cache.rs", "invalidate_of_a_pending_insert_queues_its_removal", {"C07", "C11", "C10"}, "quick", 60, "Cache::invalidate of a key whose Upsert is still queued", "n=1 admitted + 1 pending; model queue 4", quick={"C07", "C11", "C10"})
+add("sync_cache.rs", "contains_key_and_iter_are_not_maintenance_points", {"C15", "C16", "C14", "C09"}, "quick", 60, "public sync contains_key / iter with writes queued and the housekeeper due: no maintenance, nothing recorded; get tries exactly once", "n=1 + 1 pending; try_sync stubbed by a counting twin", quick={"C15", "C16"})
+add("sync_cache.rs", "sync_initial_capacity_is_inert", {"C17", "C13"}, "quick", 100, "sync builder: initial_capacity leaves sketch state, policy and counters of a fresh cache unchanged", "all capacities, initial capacities < 2^40", quick={"C17"})
+add("sync_base_cache.rs", "l_upsert_admission_before_sketch_is_enabled", {"C09", "C13", "C10", "C08"}, "quick", 60, "handle_upsert admission while the sketch is not enabled yet: rejected, returns (holds the sketch read lock as apply_writes does)", "n=1 full unit-weight cache", quick={"C09", "C13"}, unwind_tag="C09")
 add("sync_builder.rs", "sync_policy_reports_exactly_the_knobs", {"C17"}, "quick", 100, "sync builder: every knob combination -> policy()", "all capacities, durations <= 1000 y")
 add("sync_builder.rs", "sync_builder_new_equals_max_capacity", {"C17"}, "quick", 100, "sync CacheBuilder::new(n) == max_capacity(n); initial_capacity inert for policy", "all n")
 
